@@ -8,6 +8,13 @@ ASAN_OPTS = ("halt_on_error=1:abort_on_error=0:detect_leaks=0:allocator_may_retu
              "handle_abort=0:max_malloc_fill_size=4096:malloc_fill_byte=190:free_fill_byte=221")
 
 
+# A change that breaks progress makes every script that reaches it cost a full watchdog period; after MAX_HANGS hung scripts
+# in one check run the harness runs stop: the caller reports the hangs it has seen (violations), and the next attempt to run
+# scripts ends the check (vcheck prints the collected violations and exits 1).
+MAX_HANGS = int(os.environ.get("VERIF_MAX_HANGS", "8"))
+_hangs = {"n": 0}
+
+
 class StepFail:
     """One failing step.  kind: ret|state|inv|heap|crash|hang|exit"""
     __slots__ = ("sid", "step", "kind", "op", "exp", "got", "sig", "detail")
@@ -68,7 +75,7 @@ def _run_one(exe, args, script_texts, rundir, tag, env, timeout):
     e["VH_PROGRESS"] = prog
     n = len(script_texts)
     restarts = 0
-    while first < n:
+    while first < n and _hangs["n"] < MAX_HANGS:
         errp = os.path.join(rundir, "stderr-%s.txt" % tag)
         with open(errp, "wb") as ef:
             try:
@@ -119,6 +126,8 @@ def _run_one(exe, args, script_texts, rundir, tag, env, timeout):
             else:
                 raise Broken("harness %s died without a death record (rc=%s); stderr tail:\n%s" % (exe, rc, err[-2000:]))
         kind = {"C": "crash", "H": "hang", "Q": "exit"}[died[0]]
+        if kind == "hang":
+            _hangs["n"] += 1
         sig = asan_signature(err) if kind == "crash" else (kind, "")
         if kind == "exit" and "atal" in err:
             sig = ("fatal-exit", "")
@@ -151,6 +160,8 @@ def run_scripts(exe, args, script_texts, rundir, jobs=None, env=None, timeout=36
     """Runs all scripts, split over `jobs` processes.  Returns (fails, records, nscripts, nsteps)."""
     if not script_texts:
         return [], [], 0, 0
+    if _hangs["n"] >= MAX_HANGS:
+        raise Broken("%d scripts hung (watchdog): the implementation does not make progress; stopping the check" % _hangs["n"])
     # the number of harness processes follows the machine (VERIF_JOBS, default: all cores), not the caller's hint: the hints
     # date from the time when ten builders shared the machine
     jobs = max(1, min(NCPU, (len(script_texts) + 49) // 50))
